@@ -100,6 +100,7 @@ pub fn trace_hashes(w: &World) -> (String, String) {
 			Ev::TimerSleep { ns } => ("t".into(), format!("tsleep:{}", ns)),
 			Ev::ThreadSleep { ns } => ("t".into(), format!("bsleep:{}", ns)),
 			Ev::Op { what } => ("op".into(), what.clone()),
+			Ev::FileNote { len, when, .. } => ("fs".into(), format!("note:{}:{}", when, len)),
 			Ev::Panic { msg } => ("d".into(), format!("panic:{}", msg)),
 		};
 		full.push_str(&format!("{}|{}|{}|{}\n", e.seq, e.t, res, detail));
